@@ -441,13 +441,63 @@ def index(base, key):
     return Poly.atom(('idx', a, key))
 
 
+INTEGER_SYMS = set()      # names of symbols that denote integers / integer tuples (array sizes, extents, indices)
+
+
+def is_integer_atom(a):
+    """Atoms known to be integer valued: array sizes, results of floor/ceil/len,
+    bounding-box / extent results, and symbols registered in INTEGER_SYMS."""
+    k = a[0]
+    if k == 'idx':
+        b = a[1]
+        if b[0] == 'attr' and b[2] == 'shape':
+            return True
+        if b[0] == 'app' and b[1].startswith('call:') and ('boundary' in b[1] or 'extent' in b[1] or b[1].endswith('_shape')):
+            return True
+        if b[0] == 'sym' and b[1] in INTEGER_SYMS and isinstance(a[2], Poly) and a[2].const_value() is not None:
+            return True
+        return False
+    if k == 'attr':
+        return a[2] in ('size', 'ndim')
+    if k == 'app':
+        return a[1] in ('floor', 'ceil', 'len', 'count_nonzero', 'round')
+    if k == 'sym':
+        return a[1] in INTEGER_SYMS
+    if k == 'iter':
+        return True
+    return False
+
+
+def _split_integer_part(x):
+    """x = I + R with I an integer-valued polynomial (integer multiples of products of
+    integer atoms) and R the remainder with coefficients reduced into [0, 1)."""
+    ip, rest = {}, {}
+    for m, c in x.terms:
+        integral = all(is_integer_atom(a) and e.denominator == 1 and e > 0 for a, e in m)
+        if integral:
+            whole = math.floor(c)
+            if whole:
+                ip[m] = Fraction(whole)
+            if c - whole:
+                rest[m] = c - whole
+        else:
+            rest[m] = c
+    return Poly.from_dict(ip), Poly.from_dict(rest)
+
+
 def floor(x):
     x = as_poly(x)
     cv = x.const_value()
     if cv is not None:
         return Poly.const(math.floor(cv))
-    # floor(n + e) = n + floor(e) for integer constant n
-    return app('floor', x)
+    # floor(I + r) = I + floor(r) for integer-valued I: canonical remainder
+    ipart, rest = _split_integer_part(x)
+    if rest.is_zero():
+        return ipart
+    cv = rest.const_value()
+    if cv is not None:
+        return ipart + math.floor(cv)
+    return ipart + app('floor', rest)
 
 
 def ceil(x):
@@ -455,7 +505,13 @@ def ceil(x):
     cv = x.const_value()
     if cv is not None:
         return Poly.const(math.ceil(cv))
-    return app('ceil', x)
+    ipart, rest = _split_integer_part(x)
+    if rest.is_zero():
+        return ipart
+    cv = rest.const_value()
+    if cv is not None:
+        return ipart + math.ceil(cv)
+    return ipart + app('ceil', rest)
 
 
 def atom_subatoms(a):
